@@ -226,9 +226,16 @@ def trees_equal(model: dict, got: dict) -> str | None:
     """Ordered comparison; 'new' form tags in the model accept any form. -> None or a reason."""
     mk, gk = list(model.keys()), list(got.keys())
     if mk != gk:
-        if sorted(mk) == sorted(gk):
+        if sorted(mk) != sorted(gk):
+            return f"keys differ: expected {mk}, got {gk}"
+        # the position of an attrpath-derived root in the decoded tree is that of its first member in
+        # the text, which legitimately moves when members are appended / removed: judge the order of
+        # the other keys only
+        def fixed(keys, tree):
+            return [k for k in keys if not (tree[k][0] == "set" and tree[k][2] in ("attrpath", "mixed", "new"))]
+
+        if fixed(mk, model) != fixed(gk, got):
             return f"order differs: expected {mk}, got {gk}"
-        return f"keys differ: expected {mk}, got {gk}"
     for k in mk:
         m, g = model[k], got[k]
         if m[0] != g[0]:
